@@ -121,6 +121,8 @@ class Gen:
             f['stride_sep'] = ': '
         if ro.random() < 0.08:
             f['trailing_comma'] = True          # `bits(0..=3, rw,)`: an empty last argument
+        if ro.random() < 0.06 and all(x < (1 << 32) for e in entries for x in e[1:]):
+            f['zero_pad'] = True                # `bits(010..=015)`: decimal ten to fifteen
         return f
 
     def type_for_width(self, n, allow_bool=True):
@@ -530,6 +532,15 @@ class Gen:
                      'F8', 'accept', ['no-fields-with-default'])
             self.add({'kind': 'bitfield', 'name': self.name('S'), 'base': W, 'fields': [F('code', u(4), [('r', 0, 3)], acc='')]},
                      'F8', 'accept', ['no-accessible-field'])
+        # range-list pieces wider than 64 bits
+        self.add({'kind': 'bitfield', 'name': self.name('S'), 'base': 128,
+                  'fields': [F('rotated', u(128), [('r', 32, 127), ('r', 0, 31)], lst=True),
+                             F('payload', u(72), [('r', 60, 127), ('r', 0, 3)], lst=True)]}, 'F8', 'accept', ['list-piece-wider-than-64'])
+        # two readable fields over exactly the same bits (a typed view and a raw view), under debug: both are printed
+        self.add({'kind': 'bitfield', 'name': self.name('S'), 'base': 16, 'debug': True,
+                  'fields': [F('operand', u(8), [('r', 8, 15)]), F('opcode', self.custom_enum(8), [('r', 0, 7)]),
+                             F('opcode_raw', u(8), [('r', 0, 7)], acc='r'), F('version', u(4), [('r', 12, 15)], acc='r')]},
+                 'F8', 'accept', ['same-bits-twice-under-debug'])
         # `#[doc(hidden)]` and `#[doc = ..]` are doc attributes like any other: passed through, and the field still shows in Debug
         self.add({'kind': 'bitfield', 'name': self.name('S'), 'base': 16, 'doc': True, 'debug': True,
                   'fields': [dict(F('a', u(8), [('r', 0, 7)]), doc=True, doc_text='#[doc(hidden)]'),
@@ -669,6 +680,13 @@ class Gen:
             d = mk(n, 'true', full)
             d['variants'][-1]['cfg'] = 'all'
             self.add(d, 'F7e', 'reject', ['cfg-with-exhaustive-true'])
+            # the same two with a doc comment in front of the cfg attribute (the cfg is then not the variant's first attribute)
+            d = mk(n, rng.choice([None, 'false']), [0])
+            d['variants'][0].update(cfg='all', doc_first=True)
+            self.add(d, 'F7e', 'reject', ['cfg-after-doc-without-conditional'])
+            d = mk(n, 'true', full)
+            d['variants'][-1].update(cfg='all', doc_first=True)
+            self.add(d, 'F7e', 'reject', ['cfg-after-doc-with-exhaustive-true'])
         # missing / non-literal discriminants
         d = mk(3, None, [0, 1])
         d['variants'].append({'name': 'NoDiscr', 'discr': None})
